@@ -126,6 +126,11 @@ def check(ctx):
     for proto in c12.PROTOS:
         for k in range(8 if thorough else 4):
             jobs.append(make_classes_job(ctx, proto, [2, 3, 4, 4, 1, 3, 4, 2][k % 8], ctx.seed * 1000 + 500 + k))
+    # a collector that has been counting for a long time: the decoded counter stands just below 2^32 (and 2^16, 2^31) when the run
+    # begins; it goes on counting exactly
+    for k, j in enumerate(jobs):
+        if k % 4 == 1:
+            j["count_base"] = [2 ** 32 - 3, 2 ** 16 - 2, 2 ** 31 - 1, 2 ** 32 - 1][(k // 4) % 4]
     for i, j in enumerate(jobs):
         j["id"] = i
     with concurrent.futures.ThreadPoolExecutor(max_workers=8) as ex:
